@@ -134,7 +134,7 @@ impl Net {
                 service_ns: 20 * US,
                 next_free: Vec::new(),
                 rxq: Vec::new(),
-                rxq_cap: 2048,
+                rxq_cap: 32768,
             }),
             notify: Notify::new(),
         })
